@@ -20,7 +20,7 @@ func init() {
 	register(&Property{
 		Meta: report.Meta{
 			Property:    "C07",
-			Explanation: "Structural necessary conditions of a lossless seal/unseal: (R1) field bijection — from toIPLD the relation 'model field is fed from token field' and from tokenFromModel the relation 'token field is fed from model field' are extracted from the stores on every success path; they must be mutually inverse bijections over ALL fields of the Token struct and of the payload model, the model's fields must be the schema's fields, and optional/nullable schema fields must have nilable Go types; (R2) codec pairing — functions named *DagCbor* only reference dagcbor codec functions, *DagJson* only dagjson, sealed variants only DAG-CBOR; (R3) key-algorithm tables — multicodecs FromPubKey emits are accepted by Parse and have unmarshallers, key types have varsig headers; (R4) writer/reader bound agreement — every *time.Time field that toIPLD serialises is, in validate(), rejected beyond +/-(2^53-1) seconds exactly as parse.OptionalTimestamp rejects it on decode; (R5) validator symmetry — what the decoder validates (command grammar, policy integers, argument integers) validate() checks on construction too; (R6) the generic decoder dispatches to the typed decoders by their Tag constants. (R8) ordered containers: in packages args and meta, on every path a key is appended to X.Keys exactly when the path knows it to be absent from X.Values and stores a value under it (a key listed twice is sealed as a repeated map key that every decoder rejects). Equality of the round-tripped values themselves is a runtime-value clause and is not decided. validate may look at a *time.Time bound only through nil tests and Unix() (what the wire keeps); the Values map of an Args / Meta is made or cloned, never another container's map. The header written by envelope.ToIPLD is result #0 of a successful varsig.Encode(Type() of the signing key) on every sealing path, and the variable holding it is not written again. (R5) every failing exit of policy.FromIPLD / statementFromIPLD / statementsFromIPLD is selected by a fact that mentions the node being decoded. (R2) the float case of the JSON encoder that dagjson.Encode reaches (refmt json emitFloat, read from the module cache as part of the type-checked program) must contain a fraction marker constant, or a function of the module reachable from the DAG-JSON entry point must test for Kind_Float / call AsFloat. (R5) Args.Add / Meta.Add store a node only on paths with the fact Kind() != Kind_Null; every link built in literal.Any / anyAssemble is built on a path with Defined() true; invocation.validate (and helpers its code moved into) calls Defined on the cause and applies a Defined predicate to the proof list; no function reachable from toIPLD calls time.Now / Since / Until. (R6) static calls from package token into token/delegation and token/invocation are FromIPLD only. (R2) refmt emitString contains the constant \\ufffd and dagjson linkLookahead the constant /: unless module code reachable from the DAG-JSON entry points calls unicode/utf8.Valid* resp. compares with \"/\", the obligations fail (known findings). Every failing exit of envelope.FromIPLD (both instantiations) is selected by a fact whose head is one of: Inspect, the payload Tag, LookupByString, AssignNode, bindnode.Unwrap, AsString, did.Parse, PubKey, varsig.Encode, the header comparison, ipld.Encode, Verify, the final type assertion. (R1) in (*Args).Equals and (*Meta).Equals no == / != has an element of the receiver's Keys on one side and an element of the other's Keys on the other, and no call receives both Keys slices as loaded. (R5) for each of ==, <, <=, >, >=: a failing path of statementFromIPLD under the operator's kind fact that carries a fact on LookupByIndex(node, 2) requires a failing path of the function the operator's constructor returns with a fact on the value parameter.",
+			Explanation: "Structural necessary conditions of a lossless seal/unseal: (R1) field bijection — from toIPLD the relation 'model field is fed from token field' and from tokenFromModel the relation 'token field is fed from model field' are extracted from the stores on every success path; they must be mutually inverse bijections over ALL fields of the Token struct and of the payload model, the model's fields must be the schema's fields, and optional/nullable schema fields must have nilable Go types; (R2) codec pairing — functions named *DagCbor* only reference dagcbor codec functions, *DagJson* only dagjson, sealed variants only DAG-CBOR; (R3) key-algorithm tables — multicodecs FromPubKey emits are accepted by Parse and have unmarshallers, key types have varsig headers; (R4) writer/reader bound agreement — every *time.Time field that toIPLD serialises is, in validate(), rejected beyond +/-(2^53-1) seconds exactly as parse.OptionalTimestamp rejects it on decode; (R5) validator symmetry — what the decoder validates (command grammar, policy integers, argument integers) validate() checks on construction too; (R6) the generic decoder dispatches to the typed decoders by their Tag constants. (R8) ordered containers: in packages args and meta, on every path a key is appended to X.Keys exactly when the path knows it to be absent from X.Values and stores a value under it (a key listed twice is sealed as a repeated map key that every decoder rejects). Equality of the round-tripped values themselves is a runtime-value clause and is not decided. validate may look at a *time.Time bound only through nil tests and Unix() (what the wire keeps); the Values map of an Args / Meta is made or cloned, never another container's map. The header written by envelope.ToIPLD is result #0 of a successful varsig.Encode(Type() of the signing key) on every sealing path, and the variable holding it is not written again. (R5) every failing exit of policy.FromIPLD / statementFromIPLD / statementsFromIPLD is selected by a fact that mentions the node being decoded. (R2) the float case of the JSON encoder that dagjson.Encode reaches (refmt json emitFloat, read from the module cache as part of the type-checked program) must contain a fraction marker constant, or a function of the module reachable from the DAG-JSON entry point must test for Kind_Float / call AsFloat. (R5) Args.Add / Meta.Add store a node only on paths with the fact Kind() != Kind_Null; every link built in literal.Any / anyAssemble is built on a path with Defined() true; invocation.validate (and helpers its code moved into) calls Defined on the cause and applies a Defined predicate to the proof list; no function reachable from toIPLD calls time.Now / Since / Until. (R6) static calls from package token into token/delegation and token/invocation are FromIPLD only. (R2) refmt emitString contains the constant \\ufffd and dagjson linkLookahead the constant /: unless module code reachable from the DAG-JSON entry points calls unicode/utf8.Valid* resp. compares with \"/\", the obligations fail (known findings). Every failing exit of envelope.FromIPLD (both instantiations) is selected by a fact whose head is one of: Inspect, the payload Tag, LookupByString, AssignNode, bindnode.Unwrap, AsString, did.Parse, PubKey, varsig.Encode, the header comparison, ipld.Encode, Verify, the final type assertion. (R1) in (*Args).Equals and (*Meta).Equals no == / != has an element of the receiver's Keys on one side and an element of the other's Keys on the other, and no call receives both Keys slices as loaded. (R5) for each of ==, <, <=, >, >=: a failing path of statementFromIPLD under the operator's kind fact that carries a fact on LookupByIndex(node, 2) requires a failing path of the function the operator's constructor returns with a fact on the value parameter. (R1) the last store into the cell written for a *time.Time field is call[(time.Time).Unix](*recv.<field>); in envelope.ToIPLD (literals and new helpers) the third argument of the qp.MapEntry call keyed by an invoke of Tag() is a call of qp.Node.",
 			Assumptions: []string{"go-ipld-prime codecs and bindnode are lossless for the bound types (the float rendering of the JSON codec is not assumed: C07.R2 json-float-fidelity inspects it)", "time.Unix / Time.Unix are inverse at whole-second resolution"},
 			Trusted:     []string{"go-ipld-prime (dagcbor, dagjson, bindnode)", "golang.org/x/tools/go/ssa v0.29.0"},
 			NotDecided:  []string{"equality of round-tripped field values (runtime values)", "non-finite floats in arguments (excluded by the statement)"},
@@ -140,6 +140,7 @@ func runC07(x *Ctx) {
 	envelopeRefusals(x)
 	operandAgreement(x)
 	orderFreeEquals(x)
+	payloadVerbatim(x)
 	typedDecodersThroughFromIPLD(x)
 	freshEncoderOutput(x)
 
@@ -331,6 +332,24 @@ func fieldBijection(x *Ctx, pk string) {
 				}
 			}
 			nP++
+			if !absent && !isDID {
+				// and what is written is the whole seconds of that very bound, as Unix() counts them (floor): a count
+				// derived another way (milliseconds divided by 1000, a rounded value) differs for some instants
+				if _, isA := val.Val.(*ssa.Alloc); isA && val.Op == "alloc" {
+					// the last store into this very cell (a helper called once per bound has one cell per call)
+					var lv *paths.Term
+					v.Path.InstrsIn(func(in ssa.Instruction, c *paths.Ctx) {
+						if st, ok := in.(*ssa.Store); ok {
+							if at := c.Term(st.Addr); at != nil && at == val {
+								lv = c.Term(st.Val)
+							}
+						}
+					})
+					if lv != nil && lv.String() != "call[(time.Time).Unix](*recv."+f+")" {
+						badP += fmt.Sprintf("model field %s is written as %s: not (time.Time).Unix() of token field %s\n", m, lv, f)
+					}
+				}
+			}
 			switch {
 			case absent && !(has && known):
 				badP += fmt.Sprintf("model field %s is left absent on a path that does not know token field %s to be nil:\n%s\n", m, f, v.Path.String())
